@@ -12,6 +12,10 @@ rsync -a --delete --exclude target /verif/harness/ "$OUT/harness/"
 sed -i "s#path = \"/repo\"#path = \"$REPO\"#" "$OUT/harness/xsgmon/Cargo.toml"
 sed -i "s#target-dir = \"/verif/target\"#target-dir = \"$OUT/target\"#" "$OUT/harness/.cargo/config.toml"
 if ! (cd "$OUT/harness" && cargo build --release --offline >"$OUT/work/build.log" 2>&1); then
+  if grep -q "cannot be shared between threads safely" "$OUT/work/build.log" && (cd "$OUT/harness" && cargo build --release --offline --features element_not_sync >"$OUT/work/build.log" 2>&1); then
+    echo "NOTE: Element<String> is not Sync on this tree; concurrent renderings of one shared tree are replaced by per-thread clones"
+    XSG_REPO="$REPO" XSG_OUT="$OUT" exec "$OUT/target/release/xsgmon" "$@"
+  fi
     echo "INCONCLUSIVE: the monitor harness does not build against $REPO"
     tail -20 "$OUT/work/build.log"
     exit 2
